@@ -1773,8 +1773,29 @@ def _cps_starts_first_task(ctx):
     return goals
 
 
+def _cps_finalises_with_halt(ctx):
+    """C05 (the continuation that belongs to the stored status): when ContinueParentStage finalises the parent itself and hands
+    it on with CompleteStage(parent), the status it stores is a HALT status -- CompleteStage, finding the stage already
+    complete, continues (to the parent or to CompleteWorkflow) only from a halt status; from any other completed status it
+    returns, and nothing would ever start the downstream stages or end the workflow."""
+    I = ctx.I
+    msg = ctx.extra["message"]
+    goals = []
+    for t in P.committed_txns(ctx):
+        ss = [e for e in t.effects if e.kind == "store_stage"]
+        ps = [p for p in txn_pushes(t) if p.data["cls"] == "CompleteStage"]
+        for e in ss:
+            stt = e.data["snap"]["status"].t
+            for p in ps:
+                same = I.ops.eq(I.getattr(p.data["msg"], "stage_id"), e.data["snap"]["id"])
+                goals.append((f"txn{t.tid}.a-stage-finalised-here-and-sent-to-CompleteStage-has-a-halt-status",
+                              z3.Implies(z3.And(same, is_complete(I, stt)), I.ops.truthy(I.enum_getattr(SEnum(WS, stt), "is_halt")))))
+    return goals
+
+
 def continue_parent_stage():
     obls = [
+        Obl("C05/finalise/ContinueParentStage", _cps_finalises_with_halt, when="any"),
         Obl("C02/order/ContinueParentStage.starts-the-first-task", _cps_starts_first_task, when="any"),
         Obl("C05/T2/ContinueParentStage", _every_commit_continues(("CompleteStage", "StartTask", "StartStage")), when="any"),
         Obl("C05/T2b/ContinueParentStage", P.no_push_after_commit, when="any"),
